@@ -190,8 +190,25 @@ func judge(class string, key []byte, o *fw.Obs) {
 				return
 			}
 		}
-		if cmp(o, fmt.Sprintf("%s(%v, k=%x)", class, m1, kb), x, y, want) {
-			o.Count(class + " ok")
+		if !cmp(o, fmt.Sprintf("%s(%v, k=%x)", class, m1, kb), x, y, want) {
+			return
+		}
+		o.Count(class + " ok")
+		if class == "basemult" && len(kb) > 0 {
+			// the caller reuses its scalar buffer for another scalar
+			buf := append([]byte(nil), kb...)
+			var x0, y0, x2, y2 *big.Int
+			if !o.Try("ScalarBaseMult (reused scalar buffer)", func() {
+				x0, y0 = c.ScalarBaseMult(buf)
+				buf[len(buf)-1] ^= 0x5a
+				buf[0] ^= 0x01
+				x2, y2 = c.ScalarBaseMult(buf)
+			}) {
+				return
+			}
+			if cmp(o, fmt.Sprintf("basemult(k=%x)", kb), x0, y0, want) {
+				cmp(o, fmt.Sprintf("basemult(k=%x) called with the buffer of the previous call overwritten in place", buf), x2, y2, mc.Mul(new(big.Int).SetBytes(buf), mc.G()))
+			}
 		}
 	case "isoncurve":
 		x, y := new(big.Int).SetBytes(p[1]), new(big.Int).SetBytes(p[2])
@@ -334,6 +351,14 @@ func cornerScalars() [][]byte {
 		half.Bytes(), new(big.Int).Add(half, big.NewInt(1)).Bytes(),
 		new(big.Int).Sub(new(big.Int).Lsh(big.NewInt(1), 256), big.NewInt(1)).Bytes(),
 		new(big.Int).Lsh(n, 8).Bytes(), new(big.Int).Mul(n, big.NewInt(3)).Bytes(),
+	}
+	// t*n + d for every small d: accumulators of windowed or double-and-add ladders meet +-P or the
+	// identity for particular small offsets
+	for t := int64(1); t <= 3; t++ {
+		for d := int64(-3); d <= 70; d++ {
+			v := new(big.Int).Mul(n, big.NewInt(t))
+			all = append(all, v.Add(v, big.NewInt(d)).Bytes())
+		}
 	}
 	return all
 }
